@@ -49,6 +49,9 @@ def main(argv=None) -> int:
         from .props.extra3 import run_extra3
 
         run_extra3(prop, idx, rep, args.tier)
+        from .props.generic import run_generic
+
+        run_generic(prop, idx, rep, args.tier)
         if args.tier == "thorough" and not args.no_selftest and not args.repo:
             from .selftest import run_selftest
 
